@@ -25,6 +25,12 @@ Chess/San.vos Chess/San.vok Chess/San.required_vos: Chess/San.v Chess/Rules.vos 
 Chess/TextProofs.vo Chess/TextProofs.glob Chess/TextProofs.v.beautified Chess/TextProofs.required_vo: Chess/TextProofs.v Chess/Rules.vo Chess/Fen.vo Chess/RulesFacts.vo Base/FileRank.vo
 Chess/TextProofs.vio: Chess/TextProofs.v Chess/Rules.vio Chess/Fen.vio Chess/RulesFacts.vio Base/FileRank.vio
 Chess/TextProofs.vos Chess/TextProofs.vok Chess/TextProofs.required_vos: Chess/TextProofs.v Chess/Rules.vos Chess/Fen.vos Chess/RulesFacts.vos Base/FileRank.vos
+Engine/Book.vo Engine/Book.glob Engine/Book.v.beautified Engine/Book.required_vo: Engine/Book.v Engine/Encoding.vo
+Engine/Book.vio: Engine/Book.v Engine/Encoding.vio
+Engine/Book.vos Engine/Book.vok Engine/Book.required_vos: Engine/Book.v Engine/Encoding.vos
+Engine/BookProofs.vo Engine/BookProofs.glob Engine/BookProofs.v.beautified Engine/BookProofs.required_vo: Engine/BookProofs.v Engine/Book.vo
+Engine/BookProofs.vio: Engine/BookProofs.v Engine/Book.vio
+Engine/BookProofs.vos Engine/BookProofs.vok Engine/BookProofs.required_vos: Engine/BookProofs.v Engine/Book.vos
 Engine/Classify.vo Engine/Classify.glob Engine/Classify.v.beautified Engine/Classify.required_vo: Engine/Classify.v Engine/RepAbs.vo Engine/Magic.vo
 Engine/Classify.vio: Engine/Classify.v Engine/RepAbs.vio Engine/Magic.vio
 Engine/Classify.vos Engine/Classify.vok Engine/Classify.required_vos: Engine/Classify.v Engine/RepAbs.vos Engine/Magic.vos
@@ -40,6 +46,12 @@ Engine/Magic.vos Engine/Magic.vok Engine/Magic.required_vos: Engine/Magic.v Base
 Engine/MagicProofs.vo Engine/MagicProofs.glob Engine/MagicProofs.v.beautified Engine/MagicProofs.required_vo: Engine/MagicProofs.v Engine/Magic.vo
 Engine/MagicProofs.vio: Engine/MagicProofs.v Engine/Magic.vio
 Engine/MagicProofs.vos Engine/MagicProofs.vok Engine/MagicProofs.required_vos: Engine/MagicProofs.v Engine/Magic.vos
+Engine/Polyglot.vo Engine/Polyglot.glob Engine/Polyglot.v.beautified Engine/Polyglot.required_vo: Engine/Polyglot.v Engine/RepAbs.vo Engine/Magic.vo
+Engine/Polyglot.vio: Engine/Polyglot.v Engine/RepAbs.vio Engine/Magic.vio
+Engine/Polyglot.vos Engine/Polyglot.vok Engine/Polyglot.required_vos: Engine/Polyglot.v Engine/RepAbs.vos Engine/Magic.vos
+Engine/PolyglotInst.vo Engine/PolyglotInst.glob Engine/PolyglotInst.v.beautified Engine/PolyglotInst.required_vo: Engine/PolyglotInst.v Engine/Polyglot.vo Engine/Book.vo Golden/Random64.vo Gen/PolyglotData.vo
+Engine/PolyglotInst.vio: Engine/PolyglotInst.v Engine/Polyglot.vio Engine/Book.vio Golden/Random64.vio Gen/PolyglotData.vio
+Engine/PolyglotInst.vos Engine/PolyglotInst.vok Engine/PolyglotInst.required_vos: Engine/PolyglotInst.v Engine/Polyglot.vos Engine/Book.vos Golden/Random64.vos Gen/PolyglotData.vos
 Engine/PositionRep.vo Engine/PositionRep.glob Engine/PositionRep.v.beautified Engine/PositionRep.required_vo: Engine/PositionRep.v Engine/Encoding.vo
 Engine/PositionRep.vio: Engine/PositionRep.v Engine/Encoding.vio
 Engine/PositionRep.vos Engine/PositionRep.vok Engine/PositionRep.required_vos: Engine/PositionRep.v Engine/Encoding.vos
@@ -52,6 +64,12 @@ Engine/RepProofs.vos Engine/RepProofs.vok Engine/RepProofs.required_vos: Engine/
 Gen/MagicData.vo Gen/MagicData.glob Gen/MagicData.v.beautified Gen/MagicData.required_vo: Gen/MagicData.v 
 Gen/MagicData.vio: Gen/MagicData.v 
 Gen/MagicData.vos Gen/MagicData.vok Gen/MagicData.required_vos: Gen/MagicData.v 
+Gen/PolyglotData.vo Gen/PolyglotData.glob Gen/PolyglotData.v.beautified Gen/PolyglotData.required_vo: Gen/PolyglotData.v 
+Gen/PolyglotData.vio: Gen/PolyglotData.v 
+Gen/PolyglotData.vos Gen/PolyglotData.vok Gen/PolyglotData.required_vos: Gen/PolyglotData.v 
+Golden/Random64.vo Golden/Random64.glob Golden/Random64.v.beautified Golden/Random64.required_vo: Golden/Random64.v 
+Golden/Random64.vio: Golden/Random64.v 
+Golden/Random64.vos Golden/Random64.vok Golden/Random64.required_vos: Golden/Random64.v 
 Props/C11Glue.vo Props/C11Glue.glob Props/C11Glue.v.beautified Props/C11Glue.required_vo: Props/C11Glue.v Engine/Magic.vo Engine/MagicProofs.vo Gen/MagicData.vo Props/C11Sweep_R0.vo Props/C11Sweep_R1.vo Props/C11Sweep_R2.vo Props/C11Sweep_R3.vo Props/C11Sweep_R4.vo Props/C11Sweep_R5.vo Props/C11Sweep_R6.vo Props/C11Sweep_R7.vo Props/C11Sweep_B.vo
 Props/C11Glue.vio: Props/C11Glue.v Engine/Magic.vio Engine/MagicProofs.vio Gen/MagicData.vio Props/C11Sweep_R0.vio Props/C11Sweep_R1.vio Props/C11Sweep_R2.vio Props/C11Sweep_R3.vio Props/C11Sweep_R4.vio Props/C11Sweep_R5.vio Props/C11Sweep_R6.vio Props/C11Sweep_R7.vio Props/C11Sweep_B.vio
 Props/C11Glue.vos Props/C11Glue.vok Props/C11Glue.required_vos: Props/C11Glue.v Engine/Magic.vos Engine/MagicProofs.vos Gen/MagicData.vos Props/C11Sweep_R0.vos Props/C11Sweep_R1.vos Props/C11Sweep_R2.vos Props/C11Sweep_R3.vos Props/C11Sweep_R4.vos Props/C11Sweep_R5.vos Props/C11Sweep_R6.vos Props/C11Sweep_R7.vos Props/C11Sweep_B.vos
@@ -109,3 +127,9 @@ Props/Properties_C16.vos Props/Properties_C16.vok Props/Properties_C16.required_
 Props/Properties_C17.vo Props/Properties_C17.glob Props/Properties_C17.v.beautified Props/Properties_C17.required_vo: Props/Properties_C17.v Chess/Rules.vo Chess/San.vo
 Props/Properties_C17.vio: Props/Properties_C17.v Chess/Rules.vio Chess/San.vio
 Props/Properties_C17.vos Props/Properties_C17.vok Props/Properties_C17.required_vos: Props/Properties_C17.v Chess/Rules.vos Chess/San.vos
+Props/Properties_C18.vo Props/Properties_C18.glob Props/Properties_C18.v.beautified Props/Properties_C18.required_vo: Props/Properties_C18.v Engine/Polyglot.vo Engine/PolyglotInst.vo Chess/Fen.vo Golden/Random64.vo Gen/PolyglotData.vo Engine/Magic.vo
+Props/Properties_C18.vio: Props/Properties_C18.v Engine/Polyglot.vio Engine/PolyglotInst.vio Chess/Fen.vio Golden/Random64.vio Gen/PolyglotData.vio Engine/Magic.vio
+Props/Properties_C18.vos Props/Properties_C18.vok Props/Properties_C18.required_vos: Props/Properties_C18.v Engine/Polyglot.vos Engine/PolyglotInst.vos Chess/Fen.vos Golden/Random64.vos Gen/PolyglotData.vos Engine/Magic.vos
+Props/Properties_C19.vo Props/Properties_C19.glob Props/Properties_C19.v.beautified Props/Properties_C19.required_vo: Props/Properties_C19.v Engine/Book.vo Engine/BookProofs.vo
+Props/Properties_C19.vio: Props/Properties_C19.v Engine/Book.vio Engine/BookProofs.vio
+Props/Properties_C19.vos Props/Properties_C19.vok Props/Properties_C19.required_vos: Props/Properties_C19.v Engine/Book.vos Engine/BookProofs.vos
